@@ -64,7 +64,11 @@ func GetSession(sid string) (*Session, bool) {
 	// Extend session expiration if close to expiring
 	if time.Until(sess.ExpiresAt) <= extendThreshold {
 		slog.Debug("Session close to expiring, extending expiration", "session_id", sid, "expires_at", sess.ExpiresAt)
-		sess.ExpiresAt = time.Now().Add(defaultLifetime)
+		// A session object is never changed once it is in the store (other requests and the
+		// garbage collector read it without a lock): the extended session replaces it.
+		extended := *sess
+		extended.ExpiresAt = time.Now().Add(defaultLifetime)
+		sess = &extended
 		sessionStore.Set(sid, sess)
 	}
 
